@@ -59,6 +59,7 @@ type World struct {
 	evLog       []agent.Event // verifPoint events reported by the agent
 	pendingWait func()
 	notifyDropped bool
+	connBefore    string
 	DdnMs    int       // notification interval set through the hook (0 = the code's 20 s)
 	t0       time.Time // start of the world (time stamps of report events)
 	HoldFar     time.Duration // C14: delay of farLookup add commands while a modification with SNDEM is processed
